@@ -123,12 +123,20 @@ class LP:
         while True:
             if self.at("+"):
                 self.eat("+")
-                node = ("add", node, self.term())
+                node = ("add", node, self.signed_term())
             elif self.at("-"):
                 self.eat("-")
-                node = ("add", node, ("neg", self.term()))
+                node = ("add", node, ("neg", self.signed_term()))
             else:
                 return node
+
+    def signed_term(self):
+        """a term, possibly with its own sign: `a + - b` and `a - - b` are ugly but unambiguous"""
+        self.ws()
+        if self.at("-"):
+            self.eat("-")
+            return ("neg", self.signed_term())
+        return self.term()
 
     def choose(self):
         k = self.nchoices
